@@ -235,7 +235,7 @@ class C30:
     schedule_sampled = True
     build = [('asan', 'fx')]
     workers = 8
-    examples = 3000
+    examples = 2000
     # hook point tags (include/fix8/ff/mpmc/MPMCqueues.hpp, FIX8_VERIF_POINT)
     P_READ, P_SEQ, P_RESERVED, P_CASFAIL, P_RETRY, P_STORED, P_PUBLISHED = 1, 2, 3, 4, 5, 6, 7
     C_READ, C_SEQ, C_SEQP, C_EMPTY, C_RESERVED, C_CASFAIL, C_RETRY, C_TAKEN, C_RELEASED = 11, 12, 13, 14, 15, 16, 17, 18, 19
@@ -265,7 +265,7 @@ class C30:
                                      'pushes': st.lists(st.integers(1, 6), min_size=3, max_size=3), 'pops': st.lists(st.integers(1, 8), min_size=2, max_size=2),
                                      'sched': st.one_of(st.lists(st.integers(0, 4), max_size=400), st.lists(st.integers(0, 4), min_size=50, max_size=400))})
         stress = st.fixed_dictionaries({'kind': st.just('stress'), 'np': st.integers(1, 8), 'nc': st.integers(1, 8), 'n': st.sampled_from([2000, 5000, 20000, 50000])})
-        return st.one_of(ctl, ctl, ctl, ctl, ctl, ctl, ctl, ctl, ctl, stress)
+        return st.integers(0, 9).flatmap(lambda i: stress if i == 0 else ctl)      # one case in ten is a free-running run (one_of would drop the repeated objects)
 
     def run(self, case, ex):
         if case['kind'] == 'stress':
